@@ -24,6 +24,22 @@ CHECKS = {
              '(including shapes txdbus cannot itself produce), over the C01 space; exhaustive 17 codes x 64 offsets x 2 '
              'orders alignment/zero-padding grid. Catches symmetric encoder/decoder errors a round trip cannot.',
         note=TRUST),
+    'C18': dict(
+        category='exploration', design_ref='DESIGN.md section 3 C18',
+        technique='bounded-exhaustive string enumeration + Hypothesis, differential against hand-written grammar recognisers',
+        text='Every string of length <=5 (quick) / <=6 (thorough) over one representative per character class is given '
+             'to all five validators and compared with recognisers coded from the spec grammar (complete for that '
+             'space); random long strings and 254/255/256-byte names; message constructors are checked never to emit '
+             'a name the grammar rejects.',
+        note=TRUST),
+    'C19': dict(
+        category='exploration', design_ref='DESIGN.md section 3 C19',
+        technique='exhaustive grammar enumeration of signatures + Hypothesis-generated Python values, round-trip oracle',
+        text='genCompleteTypes is compared with the reference decomposition on every valid signature up to a bounded '
+             'length (complete for that space) and random ones to 255 bytes / nesting 32; sigFromPy is checked on '
+             'generated nested Python values (homogeneous, unrelated-class and subclass-instance containers) to give '
+             'one complete type that encodes and decodes back to an equal value.',
+        note='value generator restricted to the claim of the property (no same-class/different-type siblings); ' + TRUST),
 }
 
 NOT_YET = 'check under construction in this session (see DESIGN.md); will be claimed when its harness is committed'
